@@ -381,6 +381,14 @@ def _leads_with_minus(term: Any) -> bool:
         left_op = getattr(term.left, "operator", None)
         if not term.left_needs_parens(term.operator, left_op):
             return _leads_with_minus(term.left)
+        return False
+    # a criterion used as an operand begins with the text of its first operand
+    if isinstance(term, ComplexCriterion):
+        return not term.needs_brackets(term.left) and _leads_with_minus(term.left)
+    if isinstance(term, (BasicCriterion, NestedCriterion)):
+        return _leads_with_minus(term.left)
+    if isinstance(term, (ContainsCriterion, BetweenCriterion, NullCriterion)):
+        return _leads_with_minus(term.term)
     return False
 
 
